@@ -345,7 +345,7 @@ var (
 	fileSeq    atomic.Int64
 )
 
-// canary (round 6): a goroutine that does nothing but sleep 1 ms and count.  On a machine that is heavily overcommitted
+// canary (round 6): a goroutine that sleeps 1 ms, plays one ping-pong with a second goroutine and counts.  On a machine that is heavily overcommitted
 // (other checks share the cores: load averages above 200 on 16 cores were seen) a runnable goroutine of this process
 // may not get the CPU for hundreds of milliseconds, and "nothing happened for two ticks" then says nothing about the
 // provider.  A watchdog tick counts only when the canary was scheduled at least canaryNeed times during it (then
@@ -355,7 +355,7 @@ var (
 var canary atomic.Int64
 
 const (
-	canaryNeed = 12
+	canaryNeed = 25
 	maxStarved = 40
 )
 
@@ -377,9 +377,19 @@ func patient(d time.Duration) <-chan struct{} {
 
 func setup() {
 	importOnce.Do(func() {
+		// one beat = a 1 ms sleep and a ping-pong over two unbuffered channels with a second goroutine: what a provider
+		// and its consumer do for every ammo (two hand-overs between runnable goroutines, not only a timer wake-up)
+		ping, pong := make(chan struct{}), make(chan struct{})
+		go func() {
+			for range ping {
+				pong <- struct{}{}
+			}
+		}()
 		go func() {
 			for {
 				time.Sleep(time.Millisecond)
+				ping <- struct{}{}
+				<-pong
 				canary.Add(1)
 			}
 		}()
